@@ -80,12 +80,23 @@ async fn one_config(a: Args, idx: usize, proto: Proto, transport: Transport) -> 
         }
     };
     let kinds = README_KINDS;
-    let n_flows = if a.thorough { 40 } else { 12 };
+    let n_flows = if a.thorough { 100 } else { 16 };
     let mut specs = Vec::new();
     for k in 0..n_flows {
-        let mut s = random_spec(&mut rng, (idx as u64) << 16 | k as u64, &kinds, a.thorough && k % 10 == 0);
+        let mut s = random_spec(&mut rng, (idx as u64) << 16 | k as u64, &kinds, a.thorough && k % 6 == 0);
         s.kind = kinds[k % kinds.len()];
         specs.push(s);
+    }
+    if std::env::var("OSV_PROBE_FLOW").is_ok() {
+        // diagnosis aid: every flow is an upload that the application closes right after its last byte
+        for s in specs.iter_mut() {
+            s.c2s = 300_000;
+            s.s2c = 0;
+            s.write_c = 65536;
+            s.pause_ms = 0;
+            s.pattern = Pattern::Simultaneous;
+            s.closer = Closer::AppAfterAll;
+        }
     }
     if idx < 2 {
         rep.sample(json!({"config": {"proto": proto.name(), "transport": transport.name(), "workers": workers, "users": n_users}, "flows": specs.iter().take(4).map(|s| s.describe()).collect::<Vec<_>>()}));
@@ -99,7 +110,7 @@ async fn one_config(a: Args, idx: usize, proto: Proto, transport: Transport) -> 
     }
     results.extend(run_batch(reg.clone(), &d, target.port, rest.to_vec(), 8, Duration::from_secs(40)).await);
     // an extra concurrent burst on some configurations (C09 at node level)
-    if idx % 4 == 0 {
+    if a.thorough || idx % 4 == 0 {
         let mut burst = Vec::new();
         for k in 0..if a.thorough { 64 } else { 24 } {
             let mut s = random_spec(&mut rng, (idx as u64) << 16 | (1000 + k) as u64, &kinds, false);
@@ -108,6 +119,18 @@ async fn one_config(a: Args, idx: usize, proto: Proto, transport: Transport) -> 
         }
         rep.mon("concurrent_burst_flows", burst.len() as u64);
         results.extend(run_batch(reg.clone(), &d, target.port, burst, 64, Duration::from_secs(60)).await);
+    }
+    // uploads: the application writes a few hundred KB and closes at once, never reading (nothing is coming): every
+    // byte it wrote must still reach the target (a relay that drops its server connection while anything from the
+    // server is unread - a TLS session ticket is enough - resets it and the server loses the tail)
+    {
+        let mut ups = Vec::new();
+        for k in 0..if a.thorough { 32 } else { 16 } {
+            let size = [300_000usize, 120_000, 1 << 20, 65_536][k % 4];
+            ups.push(FlowSpec { id: (idx as u64) << 16 | (3000 + k) as u64, kind: kinds[k % kinds.len()], c2s: size, s2c: 0, write_c: 65536, write_s: 1, pause_ms: 0, pattern: Pattern::Simultaneous, closer: Closer::AppAfterAll });
+        }
+        rep.mon("upload_and_close_flows", ups.len() as u64);
+        results.extend(run_batch(reg.clone(), &d, target.port, ups, 8, Duration::from_secs(40)).await);
     }
     for (spec, v) in results {
         rep.case(&(idx, spec.id), v.bytes_verified > 0 || v.symptom.is_some());
@@ -151,7 +174,9 @@ async fn one_config(a: Args, idx: usize, proto: Proto, transport: Transport) -> 
     drop(target);
     drop(pair);
     drop(chopper);
-    let _ = std::fs::remove_dir_all(&dir);
+    if std::env::var("OSV_KEEP_LOGS").is_err() {
+        let _ = std::fs::remove_dir_all(&dir);
+    }
     rep
 }
 
